@@ -12,6 +12,8 @@
 #include "StringUtility.h"
 #include "XFile.h"
 #include "BitTwiddle.h"
+#include "Tag.h"
+#include <sstream>
 #include "Map/Map.h"
 #include "Map/CellType.h"
 #include "Stream/MemoryReader.h"
